@@ -24,6 +24,7 @@ type Program struct {
 	funcs   map[string]*ssa.Function // key → function (all functions of loaded packages, incl. closures)
 	dryMemo map[*ssa.Function]map[*ssa.BasicBlock]map[string]bool
 	drySorts map[string]string
+	dryStructs map[string]types.Type
 	repo    string
 	loadS   float64
 }
@@ -53,7 +54,7 @@ func loadProgram(repo string, patterns []string, specDir string) (*Program, erro
 	}
 	prog, spkgs := ssautil.Packages(pkgs, ssa.GlobalDebug|ssa.InstantiateGenerics)
 	p := &Program{pkgs: pkgs, prog: prog, spkgs: spkgs, cs: newContractSet(), funcs: map[string]*ssa.Function{},
-		dryMemo: map[*ssa.Function]map[*ssa.BasicBlock]map[string]bool{}, drySorts: map[string]string{}, repo: repo}
+		dryMemo: map[*ssa.Function]map[*ssa.BasicBlock]map[string]bool{}, drySorts: map[string]string{}, dryStructs: map[string]types.Type{}, repo: repo}
 	if len(pkgs) > 0 {
 		p.fset = pkgs[0].Fset
 	}
@@ -213,6 +214,25 @@ func (p *Program) specTypeIn(expr, pkgName string, fn *ssa.Function) (types.Type
 	return nil, fmt.Errorf("cannot resolve type %q", expr)
 }
 
+// isLoaded: fn belongs to one of the packages loaded from source for this run.
+func (p *Program) isLoaded(fn *ssa.Function) bool {
+	for _, sp := range p.spkgs {
+		if sp != nil && fn.Pkg == sp {
+			return true
+		}
+	}
+	return false
+}
+
+func sortedKeys(m map[string]bool) []string {
+	var ks []string
+	for k := range m {
+		ks = append(ks, k)
+	}
+	sort.Strings(ks)
+	return ks
+}
+
 func (p *Program) shouldInline(fn *ssa.Function) bool {
 	if fc, ok := p.cs.Funcs[funcKey(fn)]; ok {
 		return fc.Inline
@@ -247,6 +267,9 @@ func (p *Program) dryWrittenFor(fn *ssa.Function) map[*ssa.BasicBlock]map[string
 	p.dryMemo[fn] = g.written
 	for k, v := range ctx.compSort {
 		p.drySorts[k] = v // component sorts are global (derived from Go types)
+	}
+	for k, t := range ctx.structGo {
+		p.dryStructs[k] = t
 	}
 	return g.written
 }
